@@ -54,6 +54,15 @@ class _Canon(ast.NodeTransformer):
                 node.ops[0] = ast.Is() if isinstance(op, ast.Eq) else ast.IsNot()
         return node
 
+    def visit_Call(self, node: ast.Call):
+        self.generic_visit(node)
+        # list((a, b)) / list([a, b]) / tuple([a, b]): the literal itself
+        if isinstance(node.func, ast.Name) and node.func.id in ("list", "tuple") and len(node.args) == 1 and not node.keywords \
+                and isinstance(node.args[0], (ast.Tuple, ast.List)) and not any(isinstance(e, ast.Starred) for e in node.args[0].elts):
+            lit = ast.List if node.func.id == "list" else ast.Tuple
+            return ast.copy_location(lit(elts=node.args[0].elts, ctx=ast.Load()), node)
+        return node
+
     def visit_UnaryOp(self, node: ast.UnaryOp):
         self.generic_visit(node)
         if isinstance(node.op, ast.Not) and isinstance(node.operand, ast.Compare) and len(node.operand.ops) == 1:
@@ -67,6 +76,18 @@ class _Canon(ast.NodeTransformer):
 
     def visit_Assign(self, node: ast.Assign):
         self.generic_visit(node)
+        # row = table[k] = {}  (a name and a slot bound to the same fresh value):  table[k] = {}; row = table[k]
+        if len(node.targets) == 2 and not isinstance(node.value, (ast.Yield, ast.Await)):
+            names = [t for t in node.targets if isinstance(t, ast.Name)]
+            slots = [t for t in node.targets if isinstance(t, (ast.Subscript, ast.Attribute))]
+            if len(names) == 1 and len(slots) == 1 and not any(isinstance(x, ast.Call) for x in ast.walk(slots[0])):
+                load = copy.deepcopy(slots[0])
+                for x in ast.walk(load):
+                    if hasattr(x, "ctx"):
+                        x.ctx = ast.Load()
+                first = ast.copy_location(ast.Assign(targets=[slots[0]], value=node.value, lineno=node.lineno), node)
+                second = ast.copy_location(ast.Assign(targets=[names[0]], value=load, lineno=node.lineno), node)
+                return [first, second]
         # a, b = x, y  with plain names/attributes on the right and no name written that is read later on the right:  a = x; b = y
         if len(node.targets) == 1 and isinstance(node.targets[0], ast.Tuple) and isinstance(node.value, ast.Tuple) \
                 and len(node.targets[0].elts) == len(node.value.elts) and not any(isinstance(e, ast.Starred) for e in node.targets[0].elts + node.value.elts) \
@@ -153,6 +174,9 @@ class _SetDefault(ast.NodeTransformer):
 def canonicalise(tree: ast.AST, eq_none: bool = True) -> None:
     """*eq_none* = False where ``==`` may be overloaded to build an object (the SD DSL): there ``x == None`` is not ``x is None``."""
     _Canon(eq_none).visit(tree)
+    _dispatch_tables(tree)
+    _strategy_tables(tree)
+    _merge_copies(tree)
     _drop_identity_assignments(tree)
     _SetDefault().visit(tree)
     propagate_constants(tree)
@@ -160,6 +184,162 @@ def canonicalise(tree: ast.AST, eq_none: bool = True) -> None:
     for fn in [n for n in ast.walk(tree) if isinstance(n, (ast.FunctionDef, ast.AsyncFunctionDef))]:
         propagate_attribute_aliases(fn)
     ast.fix_missing_locations(tree)
+
+
+def _dispatch_tables(tree: ast.AST) -> int:
+    """``h = TABLE.get(k)`` / ``if h is not None: ... h(args) ...`` with TABLE a module-level dict literal of functions that is never
+    written to: the chain of comparisons the table stands for (``if k == "a": ... fa(args) ... elif k == "b": ...``)."""
+    if not isinstance(tree, ast.Module):
+        return 0
+    tables: Dict[str, ast.Dict] = {}
+    count: Dict[str, int] = {}
+    for st in tree.body:
+        if isinstance(st, ast.Assign) and len(st.targets) == 1 and isinstance(st.targets[0], ast.Name):
+            count[st.targets[0].id] = count.get(st.targets[0].id, 0) + 1
+            v = st.value
+            if isinstance(v, ast.Dict) and v.keys and all(isinstance(k, ast.Constant) for k in v.keys) and all(isinstance(x, (ast.Name, ast.Attribute)) for x in v.values):
+                tables[st.targets[0].id] = v
+    tables = {k: v for k, v in tables.items() if count[k] == 1}
+    if tables:
+        for n in ast.walk(tree):
+            if isinstance(n, ast.Subscript) and isinstance(n.ctx, (ast.Store, ast.Del)) and isinstance(n.value, ast.Name):
+                tables.pop(n.value.id, None)
+            if isinstance(n, ast.Attribute) and isinstance(n.value, ast.Name) and n.attr in ("update", "pop", "setdefault", "clear", "popitem"):
+                tables.pop(n.value.id, None)
+    if not tables:
+        return 0
+    done = 0
+
+    def lookup(e: ast.AST):
+        """(table, key expression) of TABLE.get(k[, None]) / TABLE[k]"""
+        if isinstance(e, ast.Call) and isinstance(e.func, ast.Attribute) and e.func.attr == "get" and isinstance(e.func.value, ast.Name) \
+                and e.func.value.id in tables and 1 <= len(e.args) <= 2 and (len(e.args) == 1 or (isinstance(e.args[1], ast.Constant) and e.args[1].value is None)):
+            return tables[e.func.value.id], e.args[0]
+        return None
+    for owner in ast.walk(tree):
+        for field in ("body", "orelse", "finalbody"):
+            blk = getattr(owner, field, None)
+            if not (isinstance(blk, list) and blk and isinstance(blk[0], ast.stmt)):
+                continue
+            i = 0
+            while i + 1 < len(blk):
+                a, b = blk[i], blk[i + 1]
+                lk = lookup(a.value) if isinstance(a, ast.Assign) and len(a.targets) == 1 and isinstance(a.targets[0], ast.Name) else None
+                if lk and isinstance(b, ast.If):
+                    v = a.targets[0].id
+                    t = b.test
+                    positive = (isinstance(t, ast.Compare) and len(t.ops) == 1 and isinstance(t.ops[0], ast.IsNot) and isinstance(t.left, ast.Name) and t.left.id == v
+                                and isinstance(t.comparators[0], ast.Constant) and t.comparators[0].value is None) or (isinstance(t, ast.Name) and t.id == v)
+                    negative = isinstance(t, ast.Compare) and len(t.ops) == 1 and isinstance(t.ops[0], ast.Is) and isinstance(t.left, ast.Name) and t.left.id == v \
+                        and isinstance(t.comparators[0], ast.Constant) and t.comparators[0].value is None
+                    later = any(isinstance(n, ast.Name) and n.id == v for st in blk[i + 2:] for n in ast.walk(st))
+                    if (positive or (negative and False)) and not later:
+                        table, key = lk
+                        hit_body, miss_body = (b.body, b.orelse)
+                        chain: List[ast.stmt] = list(miss_body)
+                        for k_, f_ in reversed(list(zip(table.keys, table.values))):
+                            body = [_NameToConst(v, f_).visit(copy.deepcopy(st)) for st in hit_body]
+                            test = ast.Compare(left=copy.deepcopy(key), ops=[ast.Eq()], comparators=[copy.deepcopy(k_)])
+                            chain = [ast.copy_location(ast.If(test=test, body=body, orelse=chain), b)]
+                        blk[i:i + 2] = chain
+                        for st in chain:
+                            ast.fix_missing_locations(st)
+                        done += 1
+                        continue
+                i += 1
+    return done
+
+
+def _strategy_tables(tree: ast.AST) -> int:
+    """``TABLE[bool(flag)].m(args)`` with TABLE = {False: A(), True: B()} (one strategy object per value of a flag, never written to):
+    ``if flag: B().m(args) else: A().m(args)``."""
+    if not isinstance(tree, ast.Module):
+        return 0
+    tables: Dict[str, ast.Dict] = {}
+    count: Dict[str, int] = {}
+    for st in tree.body:
+        if isinstance(st, ast.Assign) and len(st.targets) == 1 and isinstance(st.targets[0], ast.Name):
+            count[st.targets[0].id] = count.get(st.targets[0].id, 0) + 1
+            v = st.value
+            if isinstance(v, ast.Dict) and len(v.keys) == 2 and all(isinstance(k, ast.Constant) and isinstance(k.value, bool) for k in v.keys) \
+                    and {k.value for k in v.keys} == {True, False} and all(isinstance(x, ast.Call) and isinstance(x.func, ast.Name) and not x.args and not x.keywords for x in v.values):
+                tables[st.targets[0].id] = v
+    tables = {k: v for k, v in tables.items() if count[k] == 1}
+    for n in ast.walk(tree):
+        if isinstance(n, ast.Subscript) and isinstance(n.ctx, (ast.Store, ast.Del)) and isinstance(n.value, ast.Name):
+            tables.pop(n.value.id, None)
+    if not tables:
+        return 0
+    done = 0
+
+    def find(stmt):
+        for n in ast.walk(stmt):
+            if isinstance(n, ast.Subscript) and isinstance(n.value, ast.Name) and n.value.id in tables and isinstance(n.ctx, ast.Load):
+                return n
+        return None
+    for owner in ast.walk(tree):
+        for field in ("body", "orelse", "finalbody"):
+            blk = getattr(owner, field, None)
+            if not (isinstance(blk, list) and blk and isinstance(blk[0], ast.stmt)):
+                continue
+            i = 0
+            while i < len(blk):
+                st = blk[i]
+                sub = find(st) if isinstance(st, (ast.Expr, ast.Assign, ast.Return, ast.AugAssign)) else None
+                if sub is not None:
+                    table = tables[sub.value.id]
+                    key = sub.slice
+                    if isinstance(key, ast.Call) and isinstance(key.func, ast.Name) and key.func.id == "bool" and len(key.args) == 1:
+                        key = key.args[0]
+                    by = {k.value: v for k, v in zip(table.keys, table.values)}
+
+                    class R(ast.NodeTransformer):
+                        def __init__(self, val):
+                            self.val = val
+
+                        def visit_Subscript(self, node):
+                            self.generic_visit(node)
+                            if isinstance(node.value, ast.Name) and node.value.id == sub.value.id and isinstance(node.ctx, ast.Load):
+                                return ast.copy_location(copy.deepcopy(self.val), node)
+                            return node
+                    yes = R(by[True]).visit(copy.deepcopy(st))
+                    no = R(by[False]).visit(copy.deepcopy(st))
+                    new = ast.copy_location(ast.If(test=copy.deepcopy(key), body=[yes], orelse=[no]), st)
+                    ast.fix_missing_locations(new)
+                    blk[i] = new
+                    done += 1
+                i += 1
+    return done
+
+
+def _merge_copies(tree: ast.AST) -> None:
+    """``t__h = e`` ... ``t = t__h`` where the first name is written once and read only by that copy (what looking through a helper
+    whose local collides with a local of the caller leaves behind): the value is bound to the second name directly."""
+    for fn in [n for n in ast.walk(tree) if isinstance(n, (ast.FunctionDef, ast.AsyncFunctionDef))]:
+        stores: Dict[str, int] = {}
+        loads: Dict[str, int] = {}
+        for n in ast.walk(fn):
+            if isinstance(n, ast.Name):
+                d = stores if isinstance(n.ctx, ast.Store) else loads
+                d[n.id] = d.get(n.id, 0) + 1
+        cands = {}
+        for n in ast.walk(fn):
+            if isinstance(n, ast.Assign) and len(n.targets) == 1 and isinstance(n.targets[0], ast.Name) and isinstance(n.value, ast.Name):
+                a, b = n.targets[0].id, n.value.id
+                if "__" in b and a != b and stores.get(b) == 1 and loads.get(b) == 1 and stores.get(a) == 1 and b.startswith(a + "__"):
+                    cands[b] = (a, n)
+        if not cands:
+            continue
+        for n in ast.walk(fn):
+            if isinstance(n, ast.Name) and isinstance(n.ctx, ast.Store) and n.id in cands:
+                n.id = cands[n.id][0]
+        drop = {id(st) for _a, st in cands.values()}
+        for n in ast.walk(fn):
+            for field in ("body", "orelse", "finalbody"):
+                blk = getattr(n, field, None)
+                if isinstance(blk, list) and blk and isinstance(blk[0], ast.stmt) and any(id(st) in drop for st in blk):
+                    kept = [st for st in blk if id(st) not in drop]
+                    blk[:] = kept or [ast.copy_location(ast.Pass(), blk[0])]
 
 
 def _drop_identity_assignments(tree: ast.AST) -> None:
@@ -254,6 +434,44 @@ class _Unroll(ast.NodeTransformer):
 
     def __init__(self):
         self.local_tables: List[Dict[str, ast.AST]] = []
+        self.mod_tables: Dict[str, ast.AST] = {}
+        self.cls_tables: List[Dict[str, ast.AST]] = []
+
+    @staticmethod
+    def _tables_of(body: List[ast.stmt], whole: ast.AST) -> Dict[str, ast.AST]:
+        """names bound exactly once, at this level, to a literal table of rows, and only ever read (iterated) elsewhere"""
+        out: Dict[str, ast.AST] = {}
+        count: Dict[str, int] = {}
+        for st in body:
+            if isinstance(st, ast.Assign) and len(st.targets) == 1 and isinstance(st.targets[0], ast.Name):
+                count[st.targets[0].id] = count.get(st.targets[0].id, 0) + 1
+                if isinstance(st.value, (ast.Tuple, ast.List)) and st.value.elts and all(isinstance(r, (ast.Tuple, ast.List)) for r in st.value.elts):
+                    out[st.targets[0].id] = st.value
+        out = {k: v for k, v in out.items() if count.get(k) == 1}
+        if out:
+            for n in ast.walk(whole):
+                # any use other than a plain read (subscript store, method call on it) disqualifies the table
+                if isinstance(n, ast.Attribute) and isinstance(n.value, (ast.Name, ast.Attribute)):
+                    base = n.value
+                    nm = base.id if isinstance(base, ast.Name) else base.attr
+                    if nm in out and n.attr in ("append", "extend", "insert", "pop", "remove", "clear", "sort", "reverse"):
+                        out.pop(nm, None)
+                if isinstance(n, ast.Subscript) and isinstance(n.ctx, (ast.Store, ast.Del)):
+                    base = n.value
+                    nm = base.id if isinstance(base, ast.Name) else (base.attr if isinstance(base, ast.Attribute) else None)
+                    out.pop(nm, None)
+        return out
+
+    def visit_Module(self, node: ast.Module):
+        self.mod_tables = self._tables_of(node.body, node)
+        self.generic_visit(node)
+        return node
+
+    def visit_ClassDef(self, node: ast.ClassDef):
+        self.cls_tables.append(self._tables_of(node.body, node))
+        self.generic_visit(node)
+        self.cls_tables.pop()
+        return node
 
     def visit_FunctionDef(self, node: ast.FunctionDef):
         # locals bound exactly once to a literal table (tuple/list of rows)
@@ -274,6 +492,11 @@ class _Unroll(ast.NodeTransformer):
     def _table_rows(self, it: ast.AST, width: int) -> Optional[List[List[ast.AST]]]:
         if isinstance(it, ast.Name) and self.local_tables and it.id in self.local_tables[-1]:
             it = self.local_tables[-1][it.id]
+        elif isinstance(it, ast.Name) and it.id in self.mod_tables:
+            it = self.mod_tables[it.id]
+        elif isinstance(it, ast.Attribute) and isinstance(it.value, ast.Name) and self.cls_tables and it.attr in self.cls_tables[-1] \
+                and it.value.id in ("self", "cls"):
+            it = self.cls_tables[-1][it.attr]
         if isinstance(it, (ast.Tuple, ast.List)) and 0 < len(it.elts) <= 64 and all(
                 isinstance(r, (ast.Tuple, ast.List)) and len(r.elts) == width and all(_simple(c) or _immutable_literal(c) or
                                                                                       (isinstance(c, (ast.Tuple, ast.List)) and all(isinstance(q, ast.Constant) for q in c.elts))
@@ -490,6 +713,45 @@ def propagate_constants(tree: ast.Module) -> int:
     return n_done
 
 
+def class_constants(tree: ast.Module) -> Dict[str, Dict[str, ast.AST]]:
+    """class name -> {NAME: immutable literal bound once in the class body}"""
+    out: Dict[str, Dict[str, ast.AST]] = {}
+    for c in tree.body:
+        if isinstance(c, ast.ClassDef):
+            count: Dict[str, int] = {}
+            for st in c.body:
+                if isinstance(st, ast.Assign):
+                    for t in st.targets:
+                        if isinstance(t, ast.Name):
+                            count[t.id] = count.get(t.id, 0) + 1
+            cc = {st.targets[0].id: st.value for st in c.body if isinstance(st, ast.Assign) and len(st.targets) == 1 and isinstance(st.targets[0], ast.Name)
+                  and count[st.targets[0].id] == 1 and _immutable_literal(st.value) and not (isinstance(st.value, ast.Constant) and st.value.value is None)}
+            if cc:
+                out[c.name] = cc
+    return out
+
+
+def propagate_foreign_class_constants(tree: ast.Module, table: Dict[str, Dict[str, ast.AST]]) -> int:
+    """``OtherClass.NAME`` with NAME a constant of a class defined in another module of the package (never stored to anywhere)."""
+    own = {c.name for c in tree.body if isinstance(c, ast.ClassDef)}
+    done = 0
+
+    class P(ast.NodeTransformer):
+        def visit_Attribute(self, node):
+            nonlocal done
+            self.generic_visit(node)
+            if isinstance(node.ctx, ast.Load) and isinstance(node.value, ast.Name) and node.value.id in table and node.value.id not in own \
+                    and node.attr in table[node.value.id]:
+                done += 1
+                return ast.copy_location(copy.deepcopy(table[node.value.id][node.attr]), node)
+            return node
+    P().visit(tree)
+    if done:
+        _Unroll().visit(tree)
+        ast.fix_missing_locations(tree)
+    return done
+
+
 # ---------------------------------------------------------------------------
 # helper inlining
 # ---------------------------------------------------------------------------
@@ -668,6 +930,9 @@ class Inliner:
                     if al.name.startswith("BPTK_Py"):
                         self.module_aliases.add(al.asname or al.name.split(".")[0])
         self._attr_types: Dict[str, Dict[str, str]] = {}
+        self._scope_binds: Dict[int, Tuple[int, Dict[str, List[ast.AST]]]] = {}      # per scope, valid while no further rewrite was counted
+        from .rename import baseline_class_names
+        self.known_classes: Set[str] = baseline_class_names() or set(self.global_classes)
         self.module_funcs: Dict[str, ast.FunctionDef] = {n.name: n for n in module_tree.body if isinstance(n, ast.FunctionDef)}
         self.class_methods: Dict[str, Dict[str, ast.FunctionDef]] = {}
         for c in module_tree.body:
@@ -684,7 +949,7 @@ class Inliner:
 
     # -- eligibility -----------------------------------------------------------------------------------------------
     def _eligible(self, h: ast.FunctionDef) -> bool:
-        if h.name in self.vocab or _has_yield(h) or h.args.vararg or h.args.kwarg:
+        if h.name in self.vocab or _has_yield(h) or h.args.kwarg:
             return False
         for d in h.decorator_list:
             if not (isinstance(d, ast.Name) and d.id in ("staticmethod", "classmethod")):
@@ -715,7 +980,8 @@ class Inliner:
                     return nd[f.id], "plain"
             if f.id in self.module_funcs:
                 return self.module_funcs[f.id], "plain"
-            if f.id in self.imported and f.id in self.global_funcs:
+            if f.id in self.global_funcs and (f.id in self.imported or f.id not in self._bound_names()):
+                # imported here, or left behind by a helper of another module that was looked through (its module's own helpers)
                 return self.global_funcs[f.id], "plain"
             return None
         if isinstance(f, ast.Attribute) and f.attr not in self.vocab:
@@ -758,6 +1024,14 @@ class Inliner:
                 return h, "method"
         return None
 
+    def _bound_names(self) -> Set[str]:
+        if not hasattr(self, "_bound"):
+            self._bound = {n.id for n in ast.walk(self.tree) if isinstance(n, ast.Name) and isinstance(n.ctx, ast.Store)} | \
+                          {a.arg for n in ast.walk(self.tree) if isinstance(n, (ast.FunctionDef, ast.Lambda)) for a in n.args.args + n.args.kwonlyargs} | \
+                          {(al.asname or al.name).split(".")[0] for n in ast.walk(self.tree) if isinstance(n, (ast.Import, ast.ImportFrom)) for al in n.names} | \
+                          {n.name for n in ast.walk(self.tree) if isinstance(n, (ast.FunctionDef, ast.ClassDef))}
+        return self._bound
+
     def _methods_of(self, cls: str) -> Dict[str, ast.FunctionDef]:
         if cls not in self._mro_cache:
             self._mro_cache[cls] = self._methods_mro(cls)
@@ -777,11 +1051,15 @@ class Inliner:
             return k
         if isinstance(recv, ast.Name) and recv.id not in ("self", "cls") and scopes:
             vals = []
-            for n in ast.walk(scopes[-1]):
-                if isinstance(n, ast.Assign) and any(isinstance(t, ast.Name) and t.id == recv.id for t in n.targets):
-                    vals.append(n.value)
-            if len(vals) == 1:
-                return ctor(vals[0])
+            for sc in reversed(scopes):          # the innermost scope that binds the name (a closure reads its enclosing function's local)
+                for n in ast.walk(sc):
+                    if isinstance(n, ast.Assign) and any(isinstance(t, ast.Name) and t.id == recv.id for t in n.targets):
+                        vals.append(n.value)
+                if vals:
+                    break
+            ks = {ctor(v) for v in vals}
+            if vals and len(ks) == 1 and None not in ks:
+                return ks.pop()          # bound once, or in several branches to the same class
             return None
         if isinstance(recv, ast.Attribute) and isinstance(recv.value, ast.Name) and recv.value.id == "self" and cls:
             if cls not in self._attr_types:
@@ -860,7 +1138,13 @@ class Inliner:
             actual[params[0]] = call.func.value
             params = params[1:]
         if len(args) > len(params):
-            raise _Cannot("too many args")
+            if not a.vararg:
+                raise _Cannot("too many args")
+            # f(x, *rest) called with f(a, b, c): rest is the tuple (b, c)
+            actual[a.vararg.arg] = ast.copy_location(ast.Tuple(elts=args[len(params):], ctx=ast.Load()), call)
+            args = args[:len(params)]
+        elif a.vararg:
+            actual[a.vararg.arg] = ast.copy_location(ast.Tuple(elts=[], ctx=ast.Load()), call)
         for p, v in zip(params, args):
             actual[p] = v
         for k in call.keywords:
@@ -884,7 +1168,7 @@ class Inliner:
         pre: List[ast.stmt] = []
         rename: Dict[str, str] = {}
         for p, v in actual.items():
-            if _simple(v) and p not in stored:
+            if (_simple(v) or (a.vararg and p == a.vararg.arg)) and p not in stored:
                 mapping[p] = v
             else:
                 nm = p if p not in caller_locals else p + "__" + h.name.strip("_")
@@ -896,12 +1180,17 @@ class Inliner:
                 rename[l] = l + "__" + h.name.strip("_")
         return mapping, rename, pre
 
-    def _body(self, h: ast.FunctionDef, call: ast.Call, kind: str, caller_locals: Set[str], k) -> List[ast.stmt]:
+    def _body(self, h: ast.FunctionDef, call: ast.Call, kind: str, caller_locals: Set[str], k, keep_returns: bool = False) -> List[ast.stmt]:
         mapping, rename, pre = self._bind(h, call, kind, caller_locals)
         body = copy.deepcopy(_docless(list(h.body)))
         sub = _Subst(mapping, rename)
         body = [sub.visit(s) for s in body]
-        body = _elim(body, k)
+        if keep_returns:
+            # `return helper(...)`: the helper's own returns (also those inside its loops) are the caller's returns
+            if not _always_returns(body):
+                body.append(ast.copy_location(ast.Return(value=ast.Constant(value=None)), call))
+        else:
+            body = _elim(body, k)
         out = pre + body
         for s in out:
             ast.fix_missing_locations(s)
@@ -922,11 +1211,16 @@ class Inliner:
         def rewrite_block(stmts: List[ast.stmt]) -> List[ast.stmt]:
             nonlocal n_done
             out: List[ast.stmt] = []
+            stmts = self._sink_into_branches(list(stmts), cls)
             for s in stmts:
                 if isinstance(s, (ast.FunctionDef, ast.AsyncFunctionDef, ast.ClassDef)):
                     out.append(s)
                     continue
-                rep = self._try_stmt(s, cls, scopes + [fn], caller_locals, stack_guard)
+                rep = self._try_temporary(s, cls, scopes + [fn], caller_locals, stack_guard)
+                if rep is None:
+                    rep = self._try_ctor(s, cls, scopes + [fn], caller_locals, stack_guard)
+                if rep is None:
+                    rep = self._try_stmt(s, cls, scopes + [fn], caller_locals, stack_guard)
                 if rep is None and isinstance(s, ast.For):
                     rep = self._try_genloop(s, cls, scopes + [fn], caller_locals, stack_guard)
                 if rep is None:
@@ -945,8 +1239,78 @@ class Inliner:
                         h.body = rewrite_block(h.body)
                 out.append(s)
             return out
+        if fn.body and isinstance(fn.body[-1], ast.For) and not _has_yield(fn):
+            fn.body[-1]._tail = True          # last statement of a function that returns nothing after it
+        n_done += self._subst_properties(fn, cls)
         fn.body = rewrite_block(fn.body)
         return n_done
+
+    def _sink_into_branches(self, stmts: List[ast.stmt], cls: Optional[str]) -> List[ast.stmt]:
+        """``if c: x = A() else: x = B()`` followed by ``x.m(args)`` (a strategy object chosen by a flag, A and B private classes the
+        pinned tree does not have): the call is made in each branch, on the object of that branch."""
+        def ctor_class(st) -> Optional[Tuple[str, str]]:
+            if isinstance(st, ast.Assign) and len(st.targets) == 1 and isinstance(st.targets[0], ast.Name) and isinstance(st.value, ast.Call):
+                f = st.value.func
+                kn = f.id if isinstance(f, ast.Name) else (f.attr if isinstance(f, ast.Attribute) else None)
+                if kn and kn not in self.known_classes and kn != cls and (kn in self.global_classes or any(isinstance(c, ast.ClassDef) and c.name == kn for c in self.tree.body)):
+                    return st.targets[0].id, kn
+            return None
+        i = 0
+        while i + 1 < len(stmts):
+            s, nxt = stmts[i], stmts[i + 1]
+            if isinstance(s, ast.If) and s.body and s.orelse and not isinstance(nxt, (ast.FunctionDef, ast.ClassDef)):
+                a, b = ctor_class(s.body[-1]), ctor_class(s.orelse[-1])
+                if a and b and a[0] == b[0] and a[1] != b[1] and any(isinstance(n, ast.Name) and n.id == a[0] for n in ast.walk(nxt)) \
+                        and isinstance(nxt, (ast.Expr, ast.Assign, ast.Return, ast.AugAssign)):
+                    s.body.append(copy.deepcopy(nxt))
+                    s.orelse.append(copy.deepcopy(nxt))
+                    del stmts[i + 1]
+                    if not any(isinstance(n, ast.Name) and n.id == a[0] for st in stmts[i + 1:] for n in ast.walk(st)):
+                        # nothing reads the object after the branches: each branch has its own
+                        for blk, kn in ((s.body, a[1]), (s.orelse, b[1])):
+                            new = "%s__%s" % (a[0], kn.strip("_").lower())
+                            for st in blk:
+                                for n in ast.walk(st):
+                                    if isinstance(n, ast.Name) and n.id == a[0]:
+                                        n.id = new
+                    continue
+            i += 1
+        return stmts
+
+    def _subst_properties(self, fn: ast.FunctionDef, cls: Optional[str]) -> int:
+        """``self.p`` with p a private read-only property of one expression (``return K(self)``): the expression itself."""
+        if not cls:
+            return 0
+        props: Dict[str, ast.AST] = {}
+        for c in self.tree.body:
+            if isinstance(c, ast.ClassDef) and c.name == cls:
+                names = [m.name for m in c.body if isinstance(m, ast.FunctionDef)]
+                for m in c.body:
+                    if isinstance(m, ast.FunctionDef) and m.name not in self.vocab and names.count(m.name) == 1 and len(m.args.args) == 1 \
+                            and len(m.decorator_list) == 1 and isinstance(m.decorator_list[0], ast.Name) and m.decorator_list[0].id == "property":
+                        e = self._single_expr(m)
+                        if e is not None and m is not fn:
+                            props[m.name] = (e, m.args.args[0].arg, m)
+        if not props:
+            return 0
+        done = 0
+        inl = self
+
+        class P(ast.NodeTransformer):
+            def visit_Attribute(self, node):
+                nonlocal done
+                self.generic_visit(node)
+                if isinstance(node.ctx, ast.Load) and isinstance(node.value, ast.Name) and node.value.id == "self" and node.attr in props:
+                    e, selfname, m = props[node.attr]
+                    done += 1
+                    inl.inlined_into[id(m)] = inl.inlined_into.get(id(m), 0) + 1
+                    return ast.copy_location(_Subst({selfname: ast.Name(id="self", ctx=ast.Load())}, {}).visit(copy.deepcopy(e)), node)
+                return node
+        for i, st in enumerate(fn.body):
+            fn.body[i] = P().visit(st)
+        if done:
+            ast.fix_missing_locations(fn)
+        return done
 
     def _try_stmt(self, s: ast.stmt, cls, scopes, caller_locals, guard) -> Optional[List[ast.stmt]]:
         call = None
@@ -998,7 +1362,7 @@ class Inliner:
                 return [ast.copy_location(ast.Assign(targets=copy.deepcopy(s.targets), value=v, lineno=ret.lineno), ret)]
             return [ret]
         try:
-            body = self._body(h, call, kind, caller_locals, k)
+            body = self._body(h, call, kind, caller_locals, k, keep_returns=(mode == "return"))
         except _Cannot:
             return None
         self.inlined_into[id(h)] = self.inlined_into.get(id(h), 0) + 1
@@ -1007,6 +1371,65 @@ class Inliner:
             body.append(ast.fix_missing_locations(ast.copy_location(
                 ast.If(test=ast.Constant(value=False), body=[ast.Pass()], orelse=[]), s))) if False else None
         return body
+
+    def _try_temporary(self, s: ast.stmt, cls, scopes, caller_locals, guard) -> Optional[List[ast.stmt]]:
+        """``x = K(args).m(a)`` with K a private class the pinned tree does not have: the temporary object gets a name
+        (``k = K(args); x = k.m(a)``) so that its constructor and method can be looked through like those of a named collaborator."""
+        if not isinstance(s, (ast.Assign, ast.AugAssign, ast.AnnAssign, ast.Return, ast.Expr)):
+            return None
+        stack = [s]
+        while stack:
+            n = stack.pop()
+            if isinstance(n, (ast.Lambda, ast.FunctionDef, ast.ListComp, ast.DictComp, ast.SetComp, ast.GeneratorExp, ast.IfExp, ast.BoolOp)):
+                continue
+            if isinstance(n, ast.Call) and isinstance(n.func, ast.Attribute) and isinstance(n.func.value, ast.Call):
+                k = n.func.value
+                kn = k.func.id if isinstance(k.func, ast.Name) else (k.func.attr if isinstance(k.func, ast.Attribute) else None)
+                if kn and kn not in self.known_classes and kn != cls and (kn in self.global_classes or any(isinstance(c, ast.ClassDef) and c.name == kn for c in self.tree.body)) \
+                        and n.func.attr not in self.vocab:
+                    self.count += 1
+                    tmp = "%s__obj%d" % (kn.strip("_").lower(), self.count)
+                    caller_locals.add(tmp)
+                    pre = ast.copy_location(ast.Assign(targets=[ast.Name(id=tmp, ctx=ast.Store())], value=k, lineno=s.lineno), s)
+                    n.func.value = ast.copy_location(ast.Name(id=tmp, ctx=ast.Load()), k)
+                    ast.fix_missing_locations(pre)
+                    return [pre, s]
+            stack.extend(ast.iter_child_nodes(n))
+        return None
+
+    def _try_ctor(self, s: ast.stmt, cls, scopes, caller_locals, guard) -> Optional[List[ast.stmt]]:
+        """``self.x = K(args)`` / ``x = K(args)`` with K a private class the pinned tree does not have (a collaborator object split
+        off a class): the statements of K.__init__ follow the assignment, with K's self standing for the new object."""
+        if not (isinstance(s, ast.Assign) and len(s.targets) == 1 and isinstance(s.value, ast.Call) and not getattr(s, "_ctor_done", False)):
+            return None
+        t = s.targets[0]
+        if not (isinstance(t, ast.Name) or (isinstance(t, ast.Attribute) and isinstance(t.value, ast.Name) and t.value.id == "self")):
+            return None
+        f = s.value.func
+        kn = f.id if isinstance(f, ast.Name) else (f.attr if isinstance(f, ast.Attribute) else None)
+        if kn is None or kn in self.known_classes or kn == cls:
+            return None
+        if not (kn in self.global_classes or any(isinstance(c, ast.ClassDef) and c.name == kn for c in self.tree.body)):
+            return None
+        init = self._methods_of(kn).get("__init__")
+        s._ctor_done = True
+        if init is None or init.args.vararg or init.args.kwarg or "__init__" in guard and kn == cls:
+            return None
+        recv = copy.deepcopy(t)
+        for n in ast.walk(recv):
+            if hasattr(n, "ctx"):
+                n.ctx = ast.Load()
+        fake = ast.copy_location(ast.Call(func=ast.Attribute(value=recv, attr="__init__", ctx=ast.Load()), args=s.value.args, keywords=s.value.keywords), s.value)
+
+        def k(ret: ast.Return) -> List[ast.stmt]:
+            return []
+        try:
+            body = self._body(init, fake, "method", caller_locals, k)
+        except _Cannot:
+            return None
+        self.count += 1
+        self.inlined_into[id(init)] = self.inlined_into.get(id(init), 0) + 1
+        return [s] + body
 
     def _try_generator_argument(self, s: ast.stmt, cls, scopes, caller_locals, guard) -> Optional[List[ast.stmt]]:
         """``Response(self._stream(args))`` with a generator helper that is used nowhere else: the helper becomes a nested generator
@@ -1123,8 +1546,8 @@ class Inliner:
             return None
         if any(not (isinstance(d, ast.Name) and d.id in ("staticmethod", "classmethod")) for d in h.decorator_list):
             return None
-        if _contains_return(ast.Module(body=list(h.body), type_ignores=[])):
-            return None
+        if _contains_return(ast.Module(body=list(h.body), type_ignores=[])) and not getattr(s, "_tail", False):
+            return None       # `return` in a generator ends the consumer's loop: only the same as `return` when nothing follows the loop
         for n in ast.walk(ast.Module(body=list(s.body), type_ignores=[])):
             if isinstance(n, ast.Break):
                 return None
@@ -1231,6 +1654,350 @@ class Inliner:
         else:
             T().visit(s)
         return done
+
+
+def _propagate_field_copies(fn: ast.AST, prefix: str) -> None:
+    """``obj__f = e`` (a field of a looked-through local collaborator, set once from a plain name / attribute of self / constant whose
+    parts are not written afterwards): the reads of obj__f are shown as e."""
+    order: Dict[int, int] = {}
+    k = 0
+    stack = [fn]
+    seqd = []
+    while stack:
+        n = stack.pop()
+        order[id(n)] = k
+        k += 1
+        stack.extend(reversed(list(ast.iter_child_nodes(n))))
+    stores: Dict[str, List[ast.AST]] = {}
+    for n in ast.walk(fn):
+        if isinstance(n, ast.Name) and isinstance(n.ctx, ast.Store):
+            stores.setdefault(n.id, []).append(n)
+    values: Dict[str, Set[str]] = {}
+    for n in ast.walk(fn):
+        if isinstance(n, ast.Assign) and len(n.targets) == 1 and isinstance(n.targets[0], ast.Name):
+            values.setdefault(n.targets[0].id, set()).add(ast.unparse(n.value))
+    for n in list(ast.walk(fn)):
+        if isinstance(n, ast.Assign) and len(n.targets) == 1 and isinstance(n.targets[0], ast.Name) and n.targets[0].id.startswith(prefix) \
+                and len(values.get(n.targets[0].id, ())) == 1 and len(stores.get(n.targets[0].id, [])) == len([1 for a_ in ast.walk(fn) if isinstance(a_, ast.Assign)
+                    and len(a_.targets) == 1 and isinstance(a_.targets[0], ast.Name) and a_.targets[0].id == n.targets[0].id]) \
+                and _simple(n.value) and not isinstance(n.value, ast.Subscript):
+            parts = {x.id for x in ast.walk(n.value) if isinstance(x, ast.Name)}
+            if any(order[id(st)] > order[id(n)] for p_ in parts for st in stores.get(p_, [])):
+                continue
+            # also attributes of self written later in this function
+            written_attrs = {ast.unparse(x) for x in ast.walk(fn) if isinstance(x, ast.Attribute) and isinstance(x.ctx, ast.Store) and order[id(x)] > order[id(n)]}
+            if any(ast.unparse(x) in written_attrs for x in ast.walk(n.value) if isinstance(x, ast.Attribute)):
+                continue
+            name = n.targets[0].id
+            _NameToConst(name, n.value).visit(fn)
+
+
+def flatten_collaborators(tree: ast.Module, global_classes: Dict[str, ast.ClassDef], known_classes: Set[str]) -> int:
+    """``self.x = K(...)`` with K a private class the pinned tree does not have: the fields of the collaborator are state of the owner
+    under another spelling - ``self.x.f`` is shown as the attribute ``self.x__f`` (only fields K stores on itself, not its methods)."""
+    done = 0
+    # a local collaborator (x = K(...), then only x.f): its fields are locals under another spelling
+    for fn in [n for n in ast.walk(tree) if isinstance(n, (ast.FunctionDef, ast.AsyncFunctionDef))]:
+        binds: Dict[str, List[ast.Assign]] = {}
+        for n in ast.walk(fn):
+            if isinstance(n, ast.Assign) and len(n.targets) == 1 and isinstance(n.targets[0], ast.Name):
+                binds.setdefault(n.targets[0].id, []).append(n)
+        for nm, asg in binds.items():
+            if not asg or not all(isinstance(a.value, ast.Call) and getattr(a, "_ctor_done", False) for a in asg):
+                continue
+            kns = set()
+            for a in asg:
+                f = a.value.func
+                kns.add(f.id if isinstance(f, ast.Name) else (f.attr if isinstance(f, ast.Attribute) else None))
+            kn = kns.pop() if len(kns) == 1 else None
+            if not kn or kn in known_classes:
+                continue
+            tg = {id(a.targets[0]) for a in asg}
+            uses = [(n, p_) for p_ in ast.walk(fn) for n in ast.iter_child_nodes(p_) if isinstance(n, ast.Name) and n.id == nm and id(n) not in tg]
+            if not uses or not all(isinstance(p_, ast.Attribute) and p_.value is n for n, p_ in uses):
+                continue                  # the object itself is passed on / returned / called: keep it
+
+            class L(ast.NodeTransformer):
+                def visit_Attribute(self, node):
+                    self.generic_visit(node)
+                    if isinstance(node.value, ast.Name) and node.value.id == nm:
+                        return ast.copy_location(ast.Name(id=nm + "__" + node.attr, ctx=node.ctx), node)
+                    return node
+            L().visit(fn)
+            _propagate_field_copies(fn, nm + "__")
+            for blk_owner in ast.walk(fn):
+                for field in ("body", "orelse", "finalbody"):
+                    blk = getattr(blk_owner, field, None)
+                    for a in asg:
+                        if isinstance(blk, list) and a in blk:
+                            blk.remove(a)
+                            if not blk:
+                                blk.append(ast.copy_location(ast.Pass(), a))
+            done += 1
+    for c in tree.body:
+        if not isinstance(c, ast.ClassDef):
+            continue
+        collab: Dict[str, Set[str]] = {}
+        for n in ast.walk(c):
+            if isinstance(n, ast.Assign) and len(n.targets) == 1 and isinstance(n.value, ast.Call):
+                t = n.targets[0]
+                f = n.value.func
+                kn = f.id if isinstance(f, ast.Name) else (f.attr if isinstance(f, ast.Attribute) else None)
+                if isinstance(t, ast.Attribute) and isinstance(t.value, ast.Name) and t.value.id == "self" and kn and kn not in known_classes:
+                    kdef = global_classes.get(kn) or next((x for x in tree.body if isinstance(x, ast.ClassDef) and x.name == kn), None)
+                    if kdef is not None:
+                        fields = {x.attr for m in kdef.body if isinstance(m, ast.FunctionDef) for x in ast.walk(m)
+                                  if isinstance(x, ast.Attribute) and isinstance(x.ctx, ast.Store) and isinstance(x.value, ast.Name) and x.value.id == "self"}
+                        fields |= {tt.id for st in kdef.body if isinstance(st, ast.Assign) for tt in st.targets if isinstance(tt, ast.Name)}
+                        collab.setdefault(t.attr, set()).update(fields)
+        if not collab:
+            continue
+
+        class F(ast.NodeTransformer):
+            def visit_Attribute(self, node):
+                self.generic_visit(node)
+                v = node.value
+                if isinstance(v, ast.Attribute) and isinstance(v.value, ast.Name) and v.value.id == "self" and v.attr in collab and node.attr in collab[v.attr]:
+                    nonlocal done
+                    done += 1
+                    return ast.copy_location(ast.Attribute(value=v.value, attr=v.attr + "__" + node.attr, ctx=node.ctx), node)
+                return node
+        F().visit(c)
+        # a field that merely names another attribute of the owner (self.x__f = self.a, both set once): read as that attribute
+        stores: Dict[str, List[ast.Assign]] = {}
+        for n in ast.walk(c):
+            if isinstance(n, ast.Assign):
+                for t in n.targets:
+                    if isinstance(t, ast.Attribute) and isinstance(t.value, ast.Name) and t.value.id == "self":
+                        stores.setdefault(t.attr, []).append(n)
+            elif isinstance(n, (ast.AugAssign, ast.AnnAssign)) and isinstance(n.target, ast.Attribute) and isinstance(n.target.value, ast.Name) and n.target.value.id == "self":
+                stores.setdefault(n.target.attr, []).append(n)
+        alias: Dict[str, str] = {}
+        for x in collab:
+            for a_, defs in stores.items():
+                if a_.startswith(x + "__") and len(defs) == 1 and isinstance(defs[0], ast.Assign) and isinstance(defs[0].value, ast.Attribute) \
+                        and isinstance(defs[0].value.value, ast.Name) and defs[0].value.value.id == "self" and len(stores.get(defs[0].value.attr, [])) == 1:
+                    alias[a_] = defs[0].value.attr
+        # ... or holds the same constructor argument as another attribute of the owner (self.a = arg; self.x__f = arg)
+        for x in collab:
+            for a_, defs in stores.items():
+                if a_.startswith(x + "__") and a_ not in alias and len(defs) == 1 and isinstance(defs[0], ast.Assign) and isinstance(defs[0].value, ast.Name):
+                    twins = [b_ for b_, d2 in stores.items() if b_ != a_ and "__" not in b_ and len(d2) == 1 and isinstance(d2[0], ast.Assign)
+                             and isinstance(d2[0].value, ast.Name) and d2[0].value.id == defs[0].value.id]
+                    init = next((m for m in c.body if isinstance(m, ast.FunctionDef) and m.name == "__init__"), None)
+                    if len(twins) == 1 and init is not None and defs[0].value.id in {p_.arg for p_ in init.args.args + init.args.kwonlyargs} \
+                            and not any(isinstance(n, ast.Name) and n.id == defs[0].value.id and isinstance(n.ctx, ast.Store) for n in ast.walk(init)):
+                        alias[a_] = twins[0]
+        if alias:
+            class A(ast.NodeTransformer):
+                def visit_Attribute(self, node):
+                    self.generic_visit(node)
+                    if isinstance(node.ctx, ast.Load) and isinstance(node.value, ast.Name) and node.value.id == "self" and node.attr in alias:
+                        node.attr = alias[node.attr]
+                    return node
+            A().visit(c)
+    return done
+
+
+def _record_classes(tree: ast.Module, known_classes: Set[str]) -> Dict[str, List[Tuple[str, Optional[ast.AST]]]]:
+    """Private pure-data classes the pinned tree does not have: name -> [(field, default)] in constructor order.  A dataclass, a
+    NamedTuple / namedtuple, or a class whose only method is an __init__ made of ``self.f = f`` assignments."""
+    out: Dict[str, List[Tuple[str, Optional[ast.AST]]]] = {}
+    for c in tree.body:
+        if isinstance(c, ast.ClassDef) and c.name not in known_classes:
+            decos = [d.func if isinstance(d, ast.Call) else d for d in c.decorator_list]
+            is_dc = any((isinstance(d, ast.Name) and d.id == "dataclass") or (isinstance(d, ast.Attribute) and d.attr == "dataclass") for d in decos)
+            is_nt = any((isinstance(b, ast.Name) and b.id == "NamedTuple") or (isinstance(b, ast.Attribute) and b.attr == "NamedTuple") for b in c.bases)
+            methods = [m for m in c.body if isinstance(m, (ast.FunctionDef, ast.AsyncFunctionDef))]
+            if (is_dc or is_nt) and not methods:
+                out[c.name] = [(st.target.id, st.value) for st in c.body if isinstance(st, ast.AnnAssign) and isinstance(st.target, ast.Name)]
+            elif not c.decorator_list and len(methods) == 1 and methods[0].name == "__init__" and not [b for b in c.bases if not (isinstance(b, ast.Name) and b.id == "object")]:
+                init = methods[0]
+                a = init.args
+                if a.vararg or a.kwarg or a.kwonlyargs:
+                    continue
+                params = [x.arg for x in a.args][1:]
+                defaults = dict(zip(params[len(params) - len(a.defaults):], a.defaults)) if a.defaults else {}
+                body = _docless(list(init.body))
+                ok = all(isinstance(st, ast.Assign) and len(st.targets) == 1 and isinstance(st.targets[0], ast.Attribute)
+                         and isinstance(st.targets[0].value, ast.Name) and st.targets[0].value.id == a.args[0].arg
+                         and isinstance(st.value, ast.Name) and st.value.id == st.targets[0].attr and st.value.id in params for st in body)
+                if ok and {st.value.id for st in body} == set(params):
+                    out[c.name] = [(p_, defaults.get(p_)) for p_ in params]
+        elif isinstance(c, ast.Assign) and len(c.targets) == 1 and isinstance(c.targets[0], ast.Name) and isinstance(c.value, ast.Call) \
+                and c.targets[0].id not in known_classes:
+            f = c.value.func
+            nm = f.id if isinstance(f, ast.Name) else (f.attr if isinstance(f, ast.Attribute) else "")
+            if nm == "namedtuple" and len(c.value.args) >= 2:
+                spec = c.value.args[1]
+                fields = None
+                if isinstance(spec, ast.Constant) and isinstance(spec.value, str):
+                    fields = spec.value.replace(",", " ").split()
+                elif isinstance(spec, (ast.List, ast.Tuple)) and all(isinstance(e, ast.Constant) and isinstance(e.value, str) for e in spec.elts):
+                    fields = [e.value for e in spec.elts]
+                if fields:
+                    out[c.targets[0].id] = [(f_, None) for f_ in fields]
+    return out
+
+
+def _propagate_local_records(fn: ast.AST) -> int:
+    """``r = {"a": x, "b": y}`` bound once, only ever read as ``r["a"]`` (what a looked-through record class leaves behind): the reads
+    are shown as the values (when those are plain names / attributes / constants that are not written afterwards)."""
+    order: Dict[int, int] = {}
+    k = 0
+    stack = [fn]
+    while stack:
+        n = stack.pop()
+        order[id(n)] = k
+        k += 1
+        stack.extend(reversed(list(ast.iter_child_nodes(n))))
+    stores: Dict[str, List[ast.AST]] = {}
+    comp_targets = {id(x) for c in ast.walk(fn) if isinstance(c, ast.comprehension) for x in ast.walk(c.target)}      # their own scope
+    for n in ast.walk(fn):
+        if isinstance(n, ast.Name) and isinstance(n.ctx, ast.Store) and id(n) not in comp_targets:
+            stores.setdefault(n.id, []).append(n)
+    done = 0
+    for a in [n for n in ast.walk(fn) if isinstance(n, ast.Assign)]:
+        if not (len(a.targets) == 1 and isinstance(a.targets[0], ast.Name) and isinstance(a.value, ast.Dict) and a.value.keys
+                and all(isinstance(k_, ast.Constant) for k_ in a.value.keys) and getattr(a.value, "_from_record", False)):
+            continue
+        nm = a.targets[0].id
+        if len(stores.get(nm, [])) != 1:
+            continue
+        uses = [(n, p_) for p_ in ast.walk(fn) for n in ast.iter_child_nodes(p_) if isinstance(n, ast.Name) and n.id == nm and isinstance(n.ctx, ast.Load)]
+        if not uses or not all(isinstance(p_, ast.Subscript) and p_.value is n and isinstance(p_.slice, ast.Constant) and isinstance(p_.ctx, ast.Load) for n, p_ in uses):
+            continue
+        table = {k_.value: v for k_, v in zip(a.value.keys, a.value.values)}
+        if not all(p_.slice.value in table for _n, p_ in uses):
+            continue
+        vals = [table[p_.slice.value] for _n, p_ in uses]
+        if not all(_simple(v) for v in vals):
+            continue
+        parts = {x.id for v in vals for x in ast.walk(v) if isinstance(x, ast.Name)}
+        if any(order[id(st)] > order[id(a)] for p_ in parts for st in stores.get(p_, [])):
+            continue
+
+        class S(ast.NodeTransformer):
+            def visit_Subscript(self, node):
+                self.generic_visit(node)
+                if isinstance(node.value, ast.Name) and node.value.id == nm and isinstance(node.slice, ast.Constant) and isinstance(node.ctx, ast.Load):
+                    return ast.copy_location(copy.deepcopy(table[node.slice.value]), node)
+                return node
+        S().visit(fn)
+        for owner in ast.walk(fn):
+            for field in ("body", "orelse", "finalbody"):
+                blk = getattr(owner, field, None)
+                if isinstance(blk, list) and a in blk:
+                    blk.remove(a)
+                    if not blk:
+                        blk.append(ast.copy_location(ast.Pass(), a))
+        done += 1
+    return done
+
+
+def records_to_dicts(tree: ast.Module, known_classes: Set[str]) -> int:
+    """A private record class that replaced a dict literal (rec = _Rec(a=1, b=2) ... rec.a) is shown as the dict it stands for
+    ({"a": 1, "b": 2} ... rec["a"]).  Which expressions hold a record is inferred per class: constructor calls, locals bound to them,
+    the tables (self.t[k] = rec) they are stored in, what is read back from those tables."""
+    recs = _record_classes(tree, known_classes)
+    if not recs:
+        return 0
+    done = 0
+    all_fields = {f for fs in recs.values() for f, _d in fs}
+
+    def ctor_name(e: ast.AST) -> Optional[str]:
+        if isinstance(e, ast.Call):
+            nm = e.func.id if isinstance(e.func, ast.Name) else (e.func.attr if isinstance(e.func, ast.Attribute) else None)
+            return nm if nm in recs else None
+        return None
+    scopes: List[ast.AST] = [c for c in tree.body if isinstance(c, ast.ClassDef) and c.name not in recs] + \
+                            [f for f in tree.body if isinstance(f, (ast.FunctionDef, ast.AsyncFunctionDef))]
+    for scope in scopes:
+        tables: Set[str] = set()          # self.<t> holding records
+        funcs = [n for n in ast.walk(scope) if isinstance(n, (ast.FunctionDef, ast.AsyncFunctionDef))]
+        rec_locals: Dict[int, Set[str]] = {id(f): set() for f in funcs}
+
+        def is_table(e: ast.AST) -> bool:
+            return isinstance(e, ast.Attribute) and isinstance(e.value, ast.Name) and e.value.id == "self" and e.attr in tables
+
+        def is_rec(e: ast.AST, fn) -> bool:
+            if ctor_name(e):
+                return True
+            if isinstance(e, ast.Name):
+                return e.id in rec_locals[id(fn)]
+            if isinstance(e, ast.Subscript) and is_table(e.value):
+                return True
+            if isinstance(e, ast.Call) and isinstance(e.func, ast.Attribute) and e.func.attr in ("get", "pop", "setdefault") and is_table(e.func.value):
+                return True
+            return False
+        for _ in range(4):
+            before = (len(tables), sum(len(v) for v in rec_locals.values()))
+            for fn in funcs:
+                for n in ast.walk(fn):
+                    if isinstance(n, ast.Assign) and len(n.targets) == 1:
+                        t = n.targets[0]
+                        if is_rec(n.value, fn):
+                            if isinstance(t, ast.Name):
+                                rec_locals[id(fn)].add(t.id)
+                            elif isinstance(t, ast.Subscript) and isinstance(t.value, ast.Attribute) and isinstance(t.value.value, ast.Name) and t.value.value.id == "self":
+                                tables.add(t.value.attr)
+                    elif isinstance(n, (ast.For, ast.comprehension)):
+                        it = n.iter
+                        if isinstance(it, ast.Call) and isinstance(it.func, ast.Attribute) and is_table(it.func.value):
+                            if it.func.attr == "values" and isinstance(n.target, ast.Name):
+                                rec_locals[id(fn)].add(n.target.id)
+                            elif it.func.attr == "items" and isinstance(n.target, ast.Tuple) and len(n.target.elts) == 2 and isinstance(n.target.elts[1], ast.Name):
+                                rec_locals[id(fn)].add(n.target.elts[1].id)
+            if before == (len(tables), sum(len(v) for v in rec_locals.values())):
+                break
+        if not tables and not any(rec_locals.values()) and not any(ctor_name(n) for n in ast.walk(scope)):
+            continue
+
+        for fn in funcs:
+            class R(ast.NodeTransformer):
+                def visit_FunctionDef(self, node):
+                    if node is not fn:
+                        return node
+                    self.generic_visit(node)
+                    return node
+
+                def visit_Attribute(self, node):
+                    self.generic_visit(node)
+                    if node.attr in all_fields and is_rec(node.value, fn):
+                        nonlocal done
+                        done += 1
+                        return ast.copy_location(ast.Subscript(value=node.value, slice=ast.Constant(value=node.attr), ctx=node.ctx), node)
+                    return node
+            R().visit(fn)
+    # constructor calls -> dict literals (anywhere in the module)
+
+    class C(ast.NodeTransformer):
+        def visit_Call(self, node):
+            self.generic_visit(node)
+            nm = ctor_name(node)
+            if nm and not any(isinstance(a, ast.Starred) for a in node.args) and not any(k.arg is None for k in node.keywords):
+                fields = recs[nm]
+                vals: Dict[str, ast.AST] = {}
+                for (f_, _d), a in zip(fields, node.args):
+                    vals[f_] = a
+                for k in node.keywords:
+                    vals[k.arg] = k.value
+                for f_, d in fields:
+                    if f_ not in vals and d is not None:
+                        vals[f_] = copy.deepcopy(d)
+                if all(f_ in vals for f_, _d in fields):
+                    nonlocal done
+                    done += 1
+                    d_ = ast.Dict(keys=[ast.Constant(value=f_) for f_, _d in fields], values=[vals[f_] for f_, _d in fields])
+                    d_._from_record = True
+                    return ast.copy_location(d_, node)
+            return node
+    C().visit(tree)
+    if done:
+        for fn in [n for n in ast.walk(tree) if isinstance(n, (ast.FunctionDef, ast.AsyncFunctionDef))]:
+            _propagate_local_records(fn)
+        ast.fix_missing_locations(tree)
+    return done
 
 
 def inline_module(tree: ast.Module, vocab: Set[str], global_classes: Optional[Dict[str, ast.ClassDef]] = None, any_helpers: bool = True,
